@@ -57,3 +57,13 @@ Fixpoint check_load (p : sstmt) : bool :=
 
 (* default value of the mode parameter of a constructor / of md.open, as read from the signature *)
 Definition all_default_read (l : list mode) : bool := forallb (fun m => mode_eqb m MR) l.
+
+(* ------------------------------------------------------------------ Trajectory.save_hdf5(mode='a') (level 2) *)
+Fixpoint check_save_append (p : sstmt) : bool :=
+  match p with
+  | SSkip | SMayRaise _ => true
+  | SWith c MA _ => check_append c
+  | SWith _ _ _ => false
+  | SIfOne a b | SSeq a b => check_save_append a && check_save_append b
+  | SFor b => check_save_append b
+  end.
